@@ -209,8 +209,9 @@ def run(prop, tier, seed, replay=None):
                distinct_nontrivial=cov["traces_validated_against_impl"], exhaustive=False,
                invariants=[k for k, p in INV_PROPS.items() if prop in p])
     rc = v.finish()
-    vlib.write_evidence(prop, tier, seed, cov, time.time() - t0, len(v.violations),
-                        assumptions=["a stalled report is linearised at the instant the run loop decides to offer it under the lock",
-                                     "abstract IDs are embedded order-preservingly into 160 bits (C18 checks the metric itself)",
-                                     "equidistant result-set members may be trimmed in any order"])
+    if not replay:      # a replay re-runs one stored case; the evidence of the last full run is left alone
+        vlib.write_evidence(prop, tier, seed, cov, time.time() - t0, len(v.violations),
+                            assumptions=["a stalled report is linearised at the instant the run loop decides to offer it under the lock",
+                                         "abstract IDs are embedded order-preservingly into 160 bits (C18 checks the metric itself)",
+                                         "equidistant result-set members may be trimmed in any order"])
     return rc
